@@ -3,7 +3,7 @@ from mindsdb_sql.parser.parser import SQLParser
 from mindsdb_sql.parser.ast import *
 from mindsdb_sql.parser.dialects.mysql.lexer import MySQLLexer
 from mindsdb_sql.exceptions import ParsingException
-from mindsdb_sql.parser.utils import ensure_select_keyword_order, JoinType
+from mindsdb_sql.parser.utils import ensure_select_keyword_order, JoinType, node_to_message
 
 """
 Unfortunately the rules are not iherited from base SQLParser, because it just doesn't work with Sly due to metaclass magic.
@@ -372,7 +372,7 @@ class MySQLParser(SQLParser):
 
         if where is not None and not isinstance(where, Operation):
             raise ParsingException(
-                f"WHERE must contain an operation that evaluates to a boolean, got: {str(where)}")
+                f"WHERE must contain an operation that evaluates to a boolean, got: {node_to_message(where)}")
 
         return Delete(table=p.from_table, where=where)
 
@@ -569,7 +569,7 @@ class MySQLParser(SQLParser):
         having = p.expr
         if not isinstance(having, Operation):
             raise ParsingException(
-                f"HAVING must contain an operation that evaluates to a boolean, got: {str(having)}")
+                f"HAVING must contain an operation that evaluates to a boolean, got: {node_to_message(having)}")
         select.having = having
         return select
 
@@ -591,7 +591,7 @@ class MySQLParser(SQLParser):
         where_expr = p.expr
         if not isinstance(where_expr, Operation):
             raise ParsingException(
-                f"WHERE must contain an operation that evaluates to a boolean, got: {str(where_expr)}")
+                f"WHERE must contain an operation that evaluates to a boolean, got: {node_to_message(where_expr)}")
         select.where = where_expr
         return select
 
@@ -702,7 +702,7 @@ class MySQLParser(SQLParser):
     def result_column(self, p):
         col = p.result_column
         if col.alias:
-            raise ParsingException(f'Attempt to provide two aliases for {str(col)}')
+            raise ParsingException(f'Attempt to provide two aliases for {node_to_message(col)}')
         if hasattr(p, 'dquote_string'):
             alias = self.string_to_identifier(p.dquote_string)
         else:
